@@ -74,6 +74,7 @@ for sh in SHAPES:
         pass
     IDS.append(cassette.get_last_recording_id())
 SHAPE_OF = dict(zip(IDS, SHAPES))
+SLOW = {}                      # recording id -> seconds the replay takes
 BEHAVIOUR = {}                 # recording id -> 'player' | 'extractor' | 'comparator' | 'bare' | None
 
 
@@ -81,6 +82,9 @@ def make_equalizer(ids, rec, config=None):
     Service = make_service(rec)
 
     def player(rid):
+        if SLOW.get(rid):
+            import time as _t
+            _t.sleep(SLOW[rid])
         if BEHAVIOUR.get(rid) == 'player':
             raise RuntimeError('player failed for ' + SHAPE_OF[rid])
         return rec.play(rid, lambda recording: Service().execute(SHAPE_OF[rid]))
@@ -209,6 +213,17 @@ for rate in (1, 5):
             if (a['status'], a['message'], a['expected'], a['actual']) != (b['status'], b['message'], b['expected'], b['actual']):
                 fail({'what': 'dedicated-process verdict differs from the in-process verdict of the recording alone', 'position': k, 'sequence': [SHAPE_OF[i] for i in ids],
                       'recycle_rate': rate, 'dedicated': a, 'alone_in_process': b})
+# C13 / C08: the configured timeout is honoured as given (a float): a replay that takes 2.3 s under a timeout of 2.9 s is NOT a timeout
+SLOW[IDS[0]] = 2.3; n += 1
+cfg_t = CompareExecutionConfig(compare_in_dedicated_process=True, compare_process_recycle_rate=5, compare_process_timeout=2.9)
+got = run([IDS[0], IDS[1]], TapeRecorder(cassette), cfg_t)
+SLOW.clear()
+for k, rid in enumerate([IDS[0], IDS[1]]):
+    a, b = got[k], ref[rid]
+    if (a['status'], a['message']) != (b['status'], b['message']):
+        fail({'what': 'a replay shorter than the configured (fractional) timeout does not get the verdict it gets in-process', 'replay_takes_s': 2.3 if k == 0 else 0,
+              'compare_process_timeout': 2.9, 'dedicated': a, 'in_process': b})
+reap()
 # C19: two runs (two categories, each with its own equalizer) in dedicated-process mode, consumed INTERLEAVED: every recording gets the verdict it
 # gets alone - one run's worker management (creation, recycling) leaves the other run's worker alone
 for rate in (1, 2, 5):
